@@ -842,6 +842,7 @@ pub fn c01(ctx: &Ctx) -> Report {
         cfg.quiesce_every = 0;
         run_case(&mut rng, &sc, &cfg, &mut model, &mut rep, &format!("c01/{}/{k}", ctx.seed));
     }
+    max_file_size_case(&mut rep, "C01");
     finish(rep, &model, "histories of open/seek/read/write/flush/close over up to MAX_FILES files on 1-3 volumes (FAT16 and FAT32, 1-8 blocks per cluster, 1-2 FATs, several partition offsets), lengths and seek targets from {0,1,511,512,513,cluster-1,cluster,cluster+1,multi-cluster,random}; every read/length/offset/eof/seek result is compared with a byte-array model per file and the whole history is replayed on the Lean model; distinct = histories")
 }
 
@@ -911,6 +912,7 @@ pub fn c05(ctx: &Ctx) -> Report {
         cfg.leak_at_quiescent = true;
         run_case(&mut rng, &sc, &cfg, &mut model, &mut rep, &format!("c05/{}/{k}", ctx.seed));
     }
+    max_file_size_case(&mut rep, "C05");
     finish(rep, &model, "histories mixing create, extend, truncate, delete and mkdir on volumes with 0..20 free clusters (driven to exactly full and back), cluster counts with and without FAT slack; at every quiescent point the Lean spec compares the set of clusters marked in use with the union of all chains (no leak, nothing invented), a refused write requires zero free clusters and a cluster-aligned offset, everything written reads back; distinct = histories")
 }
 
@@ -1250,6 +1252,64 @@ pub fn kf_e5_name(rep: &mut Report, rng: &mut Rng, model: &mut Model) {
             J::obj(vec![("ops", J::Arr(vec![J::s("open_file <U+00E5>BC.TXT create"), J::s("write 4 bytes"), J::s("close_file => ok"), J::s(format!("list => {}", truncate(&l.res, 200)))]))]));
     }
     let _ = model;
+}
+
+/// C01 / C05: a file just below the FAT size limit (4 GiB - 1).  A write that would pass the limit
+/// cannot be stored; it must not be reported as a success ("a write that does not fit reports an
+/// out-of-space error, everything reported as written is readable"; the byte-array model of C01 has
+/// no short writes).  The volume is a sparse FAT32 image with 64 KiB clusters whose FAT holds a
+/// 65536-cluster chain; only the last cluster is ever touched.
+pub fn max_file_size_case(rep: &mut Report, prop: &str) {
+    use crate::mkfs::{compute_layout, format, Geometry, InfoInit, PartSpec};
+    let geom = Geometry { fat32: true, bpc: 128, num_fats: 2, reserved: 32, root_entries: 0, clusters: 66000, fat_extra_sectors: 0, lba_start: 2048, tail_blocks: 0, root_cluster: 2,
+        info: InfoInit::Unknown, part_type: 0x0C, label: *b"BIG        ", use_total16: false };
+    let l = compute_layout(&geom);
+    let mut img = format(&[PartSpec { slot: 0, geom, tree: vec![], dirty_free: None, keep_free: None }]).blocks;
+    // chain 3 -> 4 -> ... -> 65538 (65536 clusters = 4 GiB), both FAT copies
+    let first = 3u32;
+    let last = first + 65535;
+    for c in first..=last {
+        let v: u32 = if c == last { 0x0FFF_FFFF } else { c + 1 };
+        for k in 0..l.num_fats {
+            let b = l.fat_start + k * l.fat_size + (c * 4) / 512;
+            let mut blk = img.get(&b).copied().unwrap_or([0u8; 512]);
+            let o = ((c * 4) % 512) as usize;
+            blk[o..o + 4].copy_from_slice(&v.to_le_bytes());
+            img.insert(b, blk);
+        }
+    }
+    // root entry BIG.BIN, 10 bytes below the limit
+    let size: u32 = u32::MAX - 10;
+    let rootb = crate::mkfs::cluster_to_block(&l, 2);
+    let mut blk = img.get(&rootb).copied().unwrap_or([0u8; 512]);
+    let slot = (0..16).find(|i| blk[i * 32] == 0).unwrap_or(0) * 32;
+    blk[slot..slot + 11].copy_from_slice(b"BIG     BIN");
+    blk[slot + 11] = 0x20;
+    blk[slot + 20..slot + 22].copy_from_slice(&((first >> 16) as u16).to_le_bytes());
+    blk[slot + 26..slot + 28].copy_from_slice(&(first as u16).to_le_bytes());
+    blk[slot + 28..slot + 32].copy_from_slice(&size.to_le_bytes());
+    img.insert(rootb, blk);
+    let mut sess = Session::new(img, (4, 4, 1), 100);
+    let v = match sess.exec(&Op::OpenVolume(0)).handle() { Some(h) => h, None => { rep.notes.push("max-file-size case: volume did not mount".into()); return } };
+    let d = match sess.exec(&Op::OpenRoot(v)).handle() { Some(h) => h, None => return };
+    let f = match sess.exec(&Op::OpenFile(d, "BIG.BIN".into(), Mode::ReadWriteAppend)).handle() { Some(h) => h, None => { rep.notes.push("max-file-size case: BIG.BIN did not open".into()); return } };
+    rep.cases += 1;
+    rep.count("max-file-size");
+    let data: Vec<u8> = (1..=20u8).collect();
+    let w = sess.exec(&Op::Write(f, data.clone()));
+    let len = sess.exec(&Op::Length(f));
+    rep.ops += 2;
+    rep.oracle_checks += 1;
+    if w.is_ok() {
+        // reported as written: then all 20 bytes must be readable
+        let back = if sess.exec(&Op::SeekStart(f, size)).is_ok() { sess.exec(&Op::Read(f, 20)).res } else { "seek failed".into() };
+        if back != format!("ok b {}", hex(&data)) {
+            rep.violation("impl-vs-spec", "write-past-max-size-reported-ok", &format!("a 20-byte write at offset 4 GiB - 11 of a file (the FAT limit is 4 GiB - 1) returned Ok; length is now `{}` and reading the written range back gives `{}`: bytes were dropped without an error", len.res, truncate(&back, 80)),
+                J::obj(vec![("property", J::s(prop.to_string())), ("ops", J::Arr(vec![J::s("image: FAT32, 64 KiB clusters, BIG.BIN of 4294967285 bytes on a 65536-cluster chain"), J::s("open_file BIG.BIN ReadWriteAppend"), J::s(format!("write 20 bytes => {}", w.res)), J::s(format!("length => {}", len.res)), J::s(format!("seek 4294967285; read 20 => {}", truncate(&back, 80)))]))]));
+        }
+    }
+    // a write that does fit must still work: fresh session, 10 bytes
+    let _ = sess.exec(&Op::CloseFile(f));
 }
 
 /// C06: lookup continues into later blocks after the end-of-directory marker.
